@@ -554,6 +554,8 @@ class Effects(object):
                 root, path = chain_of(recv)
                 if root is None:
                     continue
+                if self._repo_method_receiver(fi, ff, recv, node.func.attr):
+                    continue  # `self._digestion.insert()`: a method of an object of the code base that happens to be named like a container's
                 bound = fi.module.bindings.get(root)
                 if root not in ff.params and root not in ff.assigns and root not in ff.elem_of and isinstance(bound, (ModRef, Ext)):
                     continue  # module function such as warnings.warn
@@ -572,6 +574,46 @@ class Effects(object):
                     roots = ff.own_prov(recv.id) if own else ff.prov(recv)
                 out.append(Site(fi, node, "call:" + node.func.attr, node.func, roots, own=own))
         return out
+
+    def _repo_method_receiver(self, fi: FuncInfo, ff, recv: ast.expr, meth: str) -> bool:
+        """the receiver is an instance of a class of the code base that defines `meth` itself: `self.<property>` whose every
+        return constructs that class, or a local bound to such a constructor call"""
+        p = self.p
+
+        def built_class(call):
+            if not isinstance(call, ast.Call):
+                return None
+            try:
+                c = p.resolve_expr(fi.module, call.func)
+            except Exception:
+                c = None
+            return c if isinstance(c, ClassInfo) else None
+
+        cls = None
+        if isinstance(recv, ast.Attribute) and isinstance(recv.value, ast.Name) and recv.value.id == ff.self_name and fi.owner is not None:
+            raw = p.class_attr_def(fi.owner, recv.attr)[1]
+            if isinstance(raw, FuncInfo) and raw.kind == "property":
+                rets = [n.value for n in ast.walk(raw.node) if isinstance(n, ast.Return) and n.value is not None]
+                classes = set()
+                for v in rets:
+                    try:
+                        c = p.resolve_expr(raw.module, v.func) if isinstance(v, ast.Call) else None
+                    except Exception:
+                        c = None
+                    classes.add(c if isinstance(c, ClassInfo) else None)
+                if len(classes) == 1 and None not in classes:
+                    cls = classes.pop()
+        elif isinstance(recv, ast.Name):
+            binds = [n.value for n in ast.walk(fi.node) if isinstance(n, ast.Assign) and len(n.targets) == 1
+                     and isinstance(n.targets[0], ast.Name) and n.targets[0].id == recv.id]
+            classes = {built_class(b) for b in binds}
+            if binds and len(classes) == 1 and None not in classes:
+                cls = classes.pop()
+        if cls is None:
+            return False
+        if any(isinstance(c, Ext) and c.dotted not in ("builtins.object", "object", "typing.Generic") for c in p.mro(cls)):
+            return False  # derives from a library container: the name may well be the container's method
+        return isinstance(p.class_attr_def(cls, meth)[1], FuncInfo)
 
     def _context_classes(self, fi: FuncInfo, ff, call: ast.Call):
         """[(class, provenance of what its constructor was given)] for the object a `with` item evaluates to: the class
@@ -1121,7 +1163,12 @@ def persistent_state_rule(ctx, rule: str, scope_modules=("moclo.core._structured
     for label, tree_funcs in (("repo", None), ("fixture", fixture)):
         funcs: List[Tuple[str, Optional[FuncInfo], ast.FunctionDef, Optional[str], str, object]] = []
         if tree_funcs is None:
-            for mn in scope_modules:
+            # the modules named at the pinned commit, and whatever module the typing code has been moved into since: every
+            # module of the core package and the private modules next to regex.py / record.py (a digestion helper, a scanner)
+            scope_now = list(scope_modules) + sorted(
+                mn for mn in p.modules
+                if mn not in scope_modules and mn != "moclo.core._assembly" and (mn.startswith("moclo.core.") or (mn.startswith("moclo._") and mn.count(".") == 1)))
+            for mn in scope_now:
                 m = p.modules.get(mn)
                 if m is None:
                     # a helper module may be folded into another one; the modules that define the classes must exist
@@ -1158,12 +1205,18 @@ def persistent_state_rule(ctx, rule: str, scope_modules=("moclo.core._structured
                     tgts = [node.target]
                 for t in tgts:
                     if isinstance(t, ast.Attribute) and _is_class_expr(t.value, cls_like, first, kind):
-                        slot_writes.append((t.attr, node, "attr"))
+                        slot_writes.append((t.attr, node, "attr", t))
                     elif isinstance(t, ast.Subscript) and isinstance(t.value, ast.Attribute) and _is_class_expr(t.value.value, cls_like, first, kind):
-                        slot_writes.append((t.value.attr, node, "keyed"))
+                        slot_writes.append((t.value.attr, node, "keyed", t))
+                    elif isinstance(t, ast.Subscript) and isinstance(t.value, ast.Attribute) and isinstance(t.value.value, ast.Name) \
+                            and t.value.value.id == first and kind == "method" and fi is not None and fi.owner is not None \
+                            and _class_level_container(p, fi.owner, t.value.attr):
+                        # self.table[key] = value where `table` is a container made in a class body and never rebound on the
+                        # instance: one table shared by every instance of the class *and of its subclasses*
+                        slot_writes.append((t.value.attr, node, "keyed-shared", t))
                 if isinstance(node, ast.Call) and isinstance(node.func, ast.Name) and node.func.id == "setattr" and node.args and _is_class_expr(node.args[0], cls_like, first, kind):
-                    slot_writes.append(("<setattr>", node, "attr"))
-            for slot, node, how in slot_writes:
+                    slot_writes.append(("<setattr>", node, "attr", None))
+            for slot, node, how, tgt in slot_writes:
                 if fn.name == "__init_subclass__" and how != "keyed":
                     continue  # runs once for every class when it is created: the class's own attribute, not a memo
                 if id(fn) in class_decorators and how != "keyed" and kind == "function":
@@ -1174,8 +1227,27 @@ def persistent_state_rule(ctx, rule: str, scope_modules=("moclo.core._structured
                 if label == "repo":
                     n_class_slots += 1
                 construct = "%s#%s" % (qn, slot)
+                if how == "keyed-shared":
+                    key = tgt.slice
+                    ok, vd, kd = _keyed_ok(fn, mod, key, value)
+                    # a value computed through self.<method>() depends on which class the instance is of (the method may be
+                    # overridden): the key must name the instance's class as well
+                    me_calls = [c for c in ast.walk(value) if isinstance(c, ast.Call) and isinstance(c.func, ast.Attribute)
+                                and isinstance(c.func.value, ast.Name) and c.func.value.id == first]
+                    overridden = [c.func.attr for c in me_calls if any(
+                        isinstance(sub.attrs.get(c.func.attr), FuncInfo) for sub in p.subclasses(fi.owner))]
+                    names_class = any(_is_type_of_self(x, first) for x in ast.walk(key)) or any(
+                        isinstance(x, ast.Name) and x.id == first for x in ast.walk(key))
+                    if overridden and not names_class:
+                        ok = False
+                        vd = set(vd) | {"type(%s)" % first}
+                    _emit(r, label, rule + ".class-slot", construct, ok,
+                          "a table made in the class body (`%s`, shared by every instance of the class and of its subclasses) is written at "
+                          "call time under a key that does not name everything the value depends on (value computed from %s, key from %s)"
+                          % (slot, sorted(vd), sorted(kd)), where, node)
+                    continue
                 if how == "keyed":
-                    key = node.targets[0].slice if isinstance(node, ast.Assign) else node.target.slice
+                    key = tgt.slice
                     ok, vd, kd = _keyed_ok(fn, mod, key, value)
                     _emit(r, label, rule + ".class-slot", construct, ok,
                           "class-level container written at call time is not keyed by everything its value depends on (value computed from %s, key from %s)"
@@ -1398,6 +1470,28 @@ def _param_deps(fn: ast.FunctionDef, e: ast.AST, _seen=None, stop: Optional[Set[
         for v in binds[nm]:
             todo.extend(_atoms_in(v, stop))
     return out
+
+
+def _class_level_container(p, ci, attr: str) -> bool:
+    """`attr` is bound in a class body on the MRO to a fresh container ({} / [] / set() / dict() ...) and no method of those
+    classes rebinds it on the instance (self.attr = ...)"""
+    found = False
+    for c in p.mro(ci):
+        if not isinstance(c, ClassInfo):
+            continue
+        raw = c.attrs.get(attr)
+        if isinstance(raw, (ast.Dict, ast.List, ast.Set)) and not getattr(raw, "keys", getattr(raw, "elts", None)):
+            found = True
+        elif isinstance(raw, ast.Call) and not raw.args and not raw.keywords and ast.unparse(raw.func) in (
+                "dict", "list", "set", "collections.OrderedDict", "OrderedDict", "collections.defaultdict", "weakref.WeakKeyDictionary", "weakref.WeakValueDictionary"):
+            found = True
+        for m in c.attrs.values():
+            if isinstance(m, FuncInfo) and m.node.args.args:
+                me = m.node.args.args[0].arg
+                for n in ast.walk(m.node):
+                    if isinstance(n, ast.Attribute) and n.attr == attr and isinstance(n.ctx, ast.Store) and isinstance(n.value, ast.Name) and n.value.id == me:
+                        return False
+    return found
 
 
 def _keyed_ok(fn: ast.FunctionDef, mod, key: ast.AST, val: ast.AST) -> Tuple[bool, Set[str], Set[str]]:
@@ -1949,6 +2043,9 @@ def match_slot_rule(ctx, rule: str):
     before the subclass's screen runs and the second access skips the screen."""
     p = ctx.program
     r = ctx.report
+    from .roles import match_slot
+
+    MATCH = match_slot(p)
     n = 0
     for mn, m in sorted(p.modules.items()):
         if not mn.startswith("moclo.core") and not mn.startswith("moclo.kits"):
@@ -1962,12 +2059,12 @@ def match_slot_rule(ctx, rule: str):
             elif isinstance(node, ast.Delete):
                 tgts = node.targets
             for t in tgts:
-                if isinstance(t, ast.Attribute) and t.attr == "_match":
+                if isinstance(t, ast.Attribute) and t.attr == MATCH:
                     r.ob(rule + ".slot-store", "%s@%s" % (mn, _norm_stmt(m.segment(node))), False,
                          "`%s` writes the cached match slot: the accessors read self._match and expect a match or InvalidSequence, nothing else" % re.sub(r"\s+", " ", m.segment(node) or "")[:80],
                          "%s:%d" % (m.relpath, node.lineno))
             if isinstance(node, ast.Call) and isinstance(node.func, ast.Name) and node.func.id == "setattr" and len(node.args) >= 2 \
-                    and isinstance(node.args[1], ast.Constant) and node.args[1].value == "_match":
+                    and isinstance(node.args[1], ast.Constant) and node.args[1].value == MATCH:
                 r.ob(rule + ".slot-store", "%s@setattr" % mn, False, "setattr(..., '_match', ...) writes the cached match slot", "%s:%d" % (m.relpath, node.lineno))
     from .loader import descriptor_kind
 
@@ -1988,7 +2085,7 @@ def match_slot_rule(ctx, rule: str):
         return names, (kinds[0] if len(kinds) == 1 else None)
 
     for ci in p.all_classes():
-        raw = ci.attrs.get("_match")
+        raw = ci.attrs.get(MATCH)
         if not isinstance(raw, FuncInfo):
             continue
         n += 1
@@ -1996,11 +2093,11 @@ def match_slot_rule(ctx, rule: str):
         # an override that reads super()._match: when the definition it reaches keeps its value in the instance dict under
         # the *name* `_match` (functools.cached_property and its look-alikes), the base class's match is stored before the
         # override's own checks have run, and once they have raised every later access finds that stored, unscreened match
-        chains = any(isinstance(x, ast.Attribute) and x.attr == "_match" and isinstance(x.value, ast.Call) and isinstance(x.value.func, ast.Name) and x.value.func.id == "super"
+        chains = any(isinstance(x, ast.Attribute) and x.attr == MATCH and isinstance(x.value, ast.Call) and isinstance(x.value.func, ast.Name) and x.value.func.id == "super"
                      for x in ast.walk(raw.node))
         reached, rkind, rnames = None, None, []
         if chains:
-            o2, above = p.class_attr_def(ci, "_match", after=ci)
+            o2, above = p.class_attr_def(ci, MATCH, after=ci)
             if isinstance(above, FuncInfo):
                 reached = above
                 rnames, rkind = kind_of(above)
